@@ -21,9 +21,9 @@ def gates_of(be, circ):
     return out
 
 
-def poly_terms(be, H):
+def poly_terms(be, H, fine=False):
     ws = be.p_list(H)
-    return [[w] + list(coef3(c)) for w, c in zip(ws, be.tolist(H.cs))]
+    return [[w] + list(coef3(c, fine)) for w, c in zip(ws, be.tolist(H.cs))]
 
 
 class C18(Prop):
@@ -121,6 +121,14 @@ class C18(Prop):
                 terms = [[w[:-1] + [rng.choice((0, 2))], rng.choice((1, -1, 3)), 0, 0 if a == 0 else 2 + a] for a, w in enumerate(order)]
                 rng.shuffle(terms)
                 yield {"k": "sbrg", "n": n, "terms": terms, "pkg": "py", "commuting": True}
+                if lead == 0:
+                    # non-default keywords and very small couplings (all coefficients below the pruning tolerance)
+                    yield {"k": "sbrg", "n": n, "terms": terms, "pkg": "py", "commuting": True,
+                           "kw": ({"tol": 0.1}, {"tol": 0.6, "max_rate": 1.0}, {"max_rate": 0.5})[j % 3]}
+                    # (polynomial addition itself drops terms below 1e-10: stay above that, below SBRG's tol)
+                    sh = (27, 14)[j % 2]
+                    tiny = [[t[0], t[1], t[2], min(t[3], 4) + sh] for t in terms]
+                    yield {"k": "sbrg", "n": n, "terms": tiny, "pkg": "py", "commuting": True, "kw": ({}, {"tol": 1e-3})[j % 2], "fine": 40}
 
     def execute(self, scn, be):
         k = scn["k"]
@@ -183,14 +191,18 @@ class C18(Prop):
                 n = scn["n"]
                 terms = scn["terms"]
                 H = be.poly([t[0] for t in terms], [complex(t[1], t[2]) / 2 ** t[3] for t in terms])
-                rec["h"] = poly_terms(be, H)
-                heff, circ = C.SBRG(H)
-                rec["heff"] = poly_terms(be, heff)
+                fine = scn.get("fine", False)
+                rec["h"] = poly_terms(be, H, fine)
+                kw = scn.get("kw") or {}
+                if kw:
+                    rec["kw"] = kw      # for commuting input no keyword may matter: nothing is truncated or pruned
+                heff, circ = C.SBRG(H, **kw)
+                rec["heff"] = poly_terms(be, heff, fine)
                 rec["gates"] = gates_of(be, circ)
                 H2 = be.poly([t[0] for t in terms], [complex(t[1], t[2]) / 2 ** t[3] for t in terms])
                 circ.forward(H2)
-                rec["fwd"] = poly_terms(be, H2)
-                rec["h1"] = poly_terms(be, H)
+                rec["fwd"] = poly_terms(be, H2, fine)
+                rec["h1"] = poly_terms(be, H, fine)
                 es = [t[3] for t in rec["h"] + rec["heff"] + rec["fwd"]]
                 rec["E"] = max([e for e in es if e < 99] + [0])
                 rec["commuting"] = scn["commuting"]
